@@ -39,7 +39,11 @@ def run(c):
     c.prove("SH.Props.C20", extra_files=["SH/Model/Journal.lean", "SH/Model/MetaIndex.lean", "SH/Gen/C20.lean"])
     drv = c.driver(DRIVER)
     if binary and drv:
-        rc, out = c.go_run(binary, [f"-n={c.n(350, 6000)}"], timeout=1500)
+        # the minimal histories of the defect class first (4 deterministic cases), then the generated ones
+        rc, out = c.go_run(binary, ["-n=4", "-mode=witness"])
+        c.harness_ok(rc, out, "verif-c20 -mode=witness")
+        c.correspond(out, drv, label="witness")
+        rc, out = c.go_run(binary, [f"-n={c.n(300, 4000)}"], timeout=1500)
         c.harness_ok(rc, out, "verif-c20")
         c.correspond(out, drv)
 
@@ -69,11 +73,11 @@ META = {
              "(5) truncation keeps a prefix of complete chunks and reload restarts from the last version read. The model is tied to the "
              "code by replaying each generated history op by op on real JournalFast/MetricsStorage objects and on the compiled Lean "
              "model and diffing versions, hashes, journal order and all index maps."),
-    "note": ("Trusted: Lean kernel; correspondence on generated histories (quick 350, thorough 6000 cases of 20-70 ops); contents, hashes, "
+    "note": ("Trusted: Lean kernel; correspondence on generated histories (quick 300, thorough 4000 cases of 20-70 ops); contents, hashes, "
              "compaction and transport results are inputs observed on the real code. Partial: end-to-end convergence of a whole replica "
              "tree with compaction and truncated reloads is established per step (diff prefix, applyUpdate, reload lemmas) and by the "
-             "direct oracle at every synced point, not as one Lean theorem over all schedules (`converges_noncompact_partial` covers the "
-             "non-compact chain without restarts). Defect found on the pinned tree: ApplyEvent deleted the old name unconditionally on "
+             "direct oracle at every synced point, not as one Lean theorem over all schedules (`converges_step_partial` is one delivery "
+             "step of the non-compact chain; the full statement is kept as a comment in Props/C20.lean). Defect found on the pinned tree: ApplyEvent deleted the old name unconditionally on "
              "rename and rebuilt the metric name index from the id index in map order; see fixes/C20-name-index.diff."),
     "design_ref": "DESIGN.md §6 C20",
 }
